@@ -420,6 +420,7 @@ def spec_make_fragments_next(ck, functional):
     if fn is None:
         return
     ex = ck.engine()
+    ex.chunk_partial = True      # MakeFragments<T: Buf>: the source may be a chain of pieces (Frame::as_buffer is header ++ body)
     st = State()
     # arbitrary mid-iteration state: `rest` = unconsumed suffix, next = fragments already produced
     fid = Int(z3.BitVec('id', 16), 16)
@@ -540,7 +541,10 @@ def replay_plan(ob):
         if lab.startswith('C11/producer/'):
             if 'mtu' in inp and ('frame_len' in inp or 'rest_len' in inp):
                 n = inp.get('frame_len', inp.get('rest_len'))
-                case = {'driver': 'make_fragments', 'args': {'mtu': inp['mtu'], 'frame_len': n, 'next_id': inp.get('id', inp.get('next_id', 0))}}
+                base = {'mtu': inp['mtu'], 'frame_len': n, 'next_id': inp.get('id', inp.get('next_id', 0))}
+                # the frame as one contiguous buffer, and as a chain of two pieces split at several places (Frame::as_buffer is one)
+                splits = [k for k in dict.fromkeys([inp.get('first_contiguous_piece'), 1, 12, int(n) // 2, max(int(n) - 1, 0)]) if isinstance(k, int) and 0 < k < int(n)]
+                case = [{'driver': 'make_fragments', 'args': dict(base)}] + [{'driver': 'make_fragments', 'args': dict(base, chain_split=k)} for k in splits]
                 mtu = int(inp['mtu'])
                 need = -(-int(n) // (mtu - 4)) if mtu > 4 else None
                 fits = need is not None and need <= 127
